@@ -115,7 +115,8 @@ def sparse_ens(S0, S, a, res):
     Gi, Gj, Gv, Fi, Fv, cons = res.items
     d = S0.dd('Expression', e)
     facts = sparse_facts(S0, e, S0.dom(d), Fi.items[0], Fi.t, Fv.t, Gi.items[0], Gi.t, Gj.t, Gv.t, cons.t)
-    return [('shapes', z3.And(Fi.items[0] == Fv.items[0], Gi.items[0] == Gj.items[0], Gi.items[0] == Gv.items[0]), 'property')] + \
+    return [('shapes', z3.And(Fi.items[0] == Fv.items[0], Gi.items[0] == Gj.items[0], Gi.items[0] == Gv.items[0],
+                              Fi.items[0] >= 0, Gi.items[0] >= 0), 'property')] + \
            [(lab, f, 'property') for lab, f in facts]
 
 
